@@ -220,17 +220,26 @@ func containsWildcards(name string) bool {
 // dedupePaths expects input as a sorted list
 func dedupePaths(in []string) []string {
 	out := make([]string, 0, len(in))
-	var last string
 	for _, s := range in {
 		// if one of the paths is root there is no filter
 		if s == "." {
 			return nil
 		}
-		if strings.HasPrefix(s, last+"/") {
+	}
+	for _, s := range in {
+		// byte order does not keep a directory next to its contents ("a", "a-b",
+		// "a/b"), so look for a containing path among all elements
+		inside := false
+		for _, t := range in {
+			if t != s && strings.HasPrefix(s, t+"/") {
+				inside = true
+				break
+			}
+		}
+		if inside || (len(out) > 0 && out[len(out)-1] == s) {
 			continue
 		}
 		out = append(out, s)
-		last = s
 	}
 	return out
 }
